@@ -128,9 +128,38 @@ func (g *genCtx) graph(depth int, parentHasState bool, parentTy int, wide bool) 
 		}
 		layers = append(layers, ids)
 	}
-	// nested graphs
+	// a loop (Pregel only): the layers a..b, b a single-node layer, are executed 2-3 (2-4) times
+	var loop *LoopSpec
+	inLoop := map[int]bool{}
+	if mode == "pregel" && r.Chance(1, 3) {
+		var bs []int
+		for l, ids := range layers {
+			if len(ids) == 1 {
+				bs = append(bs, l)
+			}
+		}
+		if len(bs) > 0 {
+			b := bs[r.Intn(len(bs))]
+			a := r.Intn(b + 1)
+			iter := r.Range(2, 3)
+			if g.thor {
+				iter = r.Range(2, 4)
+			}
+			loop = &LoopSpec{Entry: append([]int{}, layers[a]...), Last: layers[b][0], Iter: iter}
+			for l := a; l <= b; l++ {
+				for _, id := range layers[l] {
+					loop.Body = append(loop.Body, id)
+					inLoop[id] = true
+				}
+			}
+		}
+	}
+	// nested graphs (not inside a loop body)
 	if depth < 2 && len(g.c.Forest) < 4 {
 		for i := range nodes {
+			if inLoop[nodes[i].ID] {
+				continue
+			}
 			if len(g.c.Forest) < 4 && r.Chance(1, 5) {
 				nodes[i].PS = 0
 				nodes[i].PSTy = nil
@@ -142,7 +171,7 @@ func (g *genCtx) graph(depth int, parentHasState bool, parentTy int, wide bool) 
 	for i := range nodes {
 		sortInts(nodes[i].Preds)
 	}
-	g.c.Forest[gi] = GraphSpec{Mode: mode, State: state, STy: sty, Nodes: nodes}
+	g.c.Forest[gi] = GraphSpec{Mode: mode, State: state, STy: sty, Nodes: nodes, Loop: loop}
 	return gi
 }
 
@@ -159,10 +188,35 @@ func (engine) Generate(r *lib.Rng, tier string, i int) any {
 	g := &genCtx{r: r, c: c, nextID: 1, thor: tier == "thorough"}
 	g.graph(0, false, 0, true)
 	if r.Chance(2, 5) {
-		c.Runs = 2
+		c.Runs = r.Range(2, 3)
 		c.Concurrent = r.Chance(2, 3)
 	}
 	c.Stream = r.Chance(1, 4)
+	// error path: one critical section updates the state and then returns an error (the run
+	// must fail, the lock must be released: sibling nodes still get the state)
+	if r.Chance(1, 20) {
+		type sec struct{ gi, ni, fail int }
+		var secs []sec
+		for gi, gr := range c.Forest {
+			for ni, n := range gr.Nodes {
+				if n.Pre {
+					secs = append(secs, sec{gi, ni, kPre + 1})
+				}
+				if n.Post {
+					secs = append(secs, sec{gi, ni, kPost + 1})
+				}
+				if n.Sub < 0 {
+					for j := 0; j < n.PS; j++ {
+						secs = append(secs, sec{gi, ni, kBody + j + 1})
+					}
+				}
+			}
+		}
+		if len(secs) > 0 {
+			x := secs[r.Intn(len(secs))]
+			c.Forest[x.gi].Nodes[x.ni].Fail = x.fail
+		}
+	}
 	if r.Chance(3, 10) {
 		// interrupt before some nodes of a layer >= 1 of some graph (before the first layer
 		// only for nested graphs: their START is not the run's START)
@@ -186,6 +240,21 @@ func (engine) Generate(r *lib.Rng, tier string, i int) any {
 					pick = []int{late[r.Intn(len(late))]}
 				}
 				cands = append(cands, IntSpec{Graph: gi, Nodes: pick})
+			}
+		}
+		// ... or after some nodes of any layer of some graph
+		if r.Chance(1, 3) {
+			cands = nil
+			for gi, gr := range c.Forest {
+				var pick []int
+				for _, n := range gr.Nodes {
+					if r.Chance(1, 3) {
+						pick = append(pick, n.ID)
+					}
+				}
+				if len(pick) > 0 {
+					cands = append(cands, IntSpec{Graph: gi, Nodes: pick, After: true})
+				}
 			}
 		}
 		if len(cands) > 0 {
